@@ -15,7 +15,7 @@ macro "same_body" a:ident b:ident : tactic =>
 namespace CTV.Der.TieSpec
 
 
-/-- copy of the body regenerated from x509/x509.go func IsFatal (whole body) (as of the deepening round) -/
+/-- copy of the body regenerated from x509/x509.go func IsFatal: executed on each kind of error value (nil, a NonFatalErrors value, an *Errors with / without a fatal entry, anything else) -/
 def isFatalBody (isNil isNfe isErrors errsFatal : Bool) : Bool :=
   if isNil then
     false
@@ -24,121 +24,96 @@ def isFatalBody (isNil isNfe isErrors errsFatal : Bool) : Bool :=
     false
   else
   if isErrors then
-    errsFatal
+    if errsFatal then
+      true
+    else
+    false
   else
   true
 
-/-- copy of the body regenerated from x509/x509.go func ParseCertificate (whole body, a final `return helper(…)` followed into the helper) (as of the deepening round) -/
+/-- copy of the body regenerated from x509/x509.go func ParseCertificate: the function, with the helpers and methods of the package it calls, executed on every combination of the facts it observes (decision tree in a fixed order of the facts; result = (object, error, the collector's count)) -/
 def parseCertificateBody (strictFails laxFails trailing innerFails innerIsNfe : Bool) (innerN : Nat) : Int × Int × Nat :=
-  let nfe_ := (0 : Nat)
   if strictFails then
     if laxFails then
-      ((0 : Int), (1 : Int), nfe_)
+      ((0 : Int), (1 : Int), 0)
     else
-    let nfe_ := nfe_ + 1
     if trailing then
-      ((0 : Int), (1 : Int), nfe_)
+      ((0 : Int), (1 : Int), 0)
     else
     if innerFails then
-      if (!innerIsNfe) then
-        ((0 : Int), (2 : Int), nfe_)
+      if innerIsNfe then
+        ((1 : Int), (3 : Int), 1 + innerN)
       else
-      let nfe_ := nfe_ + innerN
-      if (decide (nfe_ > 0)) then
-        ((1 : Int), (3 : Int), nfe_)
-      else
-      ((1 : Int), (0 : Int), nfe_)
+      ((0 : Int), (2 : Int), 0)
     else
-    if (decide (nfe_ > 0)) then
-      ((1 : Int), (3 : Int), nfe_)
-    else
-    ((1 : Int), (0 : Int), nfe_)
+    ((1 : Int), (3 : Int), 1)
   else
   if trailing then
-    ((0 : Int), (1 : Int), nfe_)
+    ((0 : Int), (1 : Int), 0)
   else
   if innerFails then
-    if (!innerIsNfe) then
-      ((0 : Int), (2 : Int), nfe_)
+    if innerIsNfe then
+      if (decide (innerN > 0)) then
+        ((1 : Int), (3 : Int), innerN)
+      else
+      ((1 : Int), (0 : Int), 0)
     else
-    let nfe_ := nfe_ + innerN
-    if (decide (nfe_ > 0)) then
-      ((1 : Int), (3 : Int), nfe_)
-    else
-    ((1 : Int), (0 : Int), nfe_)
+    ((0 : Int), (2 : Int), 0)
   else
-  if (decide (nfe_ > 0)) then
-    ((1 : Int), (3 : Int), nfe_)
-  else
-  ((1 : Int), (0 : Int), nfe_)
+  ((1 : Int), (0 : Int), 0)
 
-/-- copy of the body regenerated from x509/x509.go func ParseTBSCertificate (whole body, a final `return helper(…)` followed into the helper) (as of the deepening round) -/
+/-- copy of the body regenerated from x509/x509.go func ParseTBSCertificate: the function, with the helpers and methods of the package it calls, executed on every combination of the facts it observes (decision tree in a fixed order of the facts; result = (object, error, the collector's count)) -/
 def parseTBSCertificateBody (strictFails laxFails trailing innerFails innerIsNfe : Bool) (innerN : Nat) : Int × Int × Nat :=
-  let nfe_ := (0 : Nat)
   if strictFails then
     if laxFails then
-      ((0 : Int), (1 : Int), nfe_)
+      ((0 : Int), (1 : Int), 0)
     else
-    let nfe_ := nfe_ + 1
     if trailing then
-      ((0 : Int), (1 : Int), nfe_)
+      ((0 : Int), (1 : Int), 0)
     else
     if innerFails then
-      if (!innerIsNfe) then
-        ((0 : Int), (2 : Int), nfe_)
+      if innerIsNfe then
+        ((1 : Int), (3 : Int), 1 + innerN)
       else
-      let nfe_ := nfe_ + innerN
-      if (decide (nfe_ > 0)) then
-        ((1 : Int), (3 : Int), nfe_)
-      else
-      ((1 : Int), (0 : Int), nfe_)
+      ((0 : Int), (2 : Int), 0)
     else
-    if (decide (nfe_ > 0)) then
-      ((1 : Int), (3 : Int), nfe_)
-    else
-    ((1 : Int), (0 : Int), nfe_)
+    ((1 : Int), (3 : Int), 1)
   else
   if trailing then
-    ((0 : Int), (1 : Int), nfe_)
+    ((0 : Int), (1 : Int), 0)
   else
   if innerFails then
-    if (!innerIsNfe) then
-      ((0 : Int), (2 : Int), nfe_)
+    if innerIsNfe then
+      if (decide (innerN > 0)) then
+        ((1 : Int), (3 : Int), innerN)
+      else
+      ((1 : Int), (0 : Int), 0)
     else
-    let nfe_ := nfe_ + innerN
-    if (decide (nfe_ > 0)) then
-      ((1 : Int), (3 : Int), nfe_)
-    else
-    ((1 : Int), (0 : Int), nfe_)
+    ((0 : Int), (2 : Int), 0)
   else
-  if (decide (nfe_ > 0)) then
-    ((1 : Int), (3 : Int), nfe_)
-  else
-  ((1 : Int), (0 : Int), nfe_)
+  ((1 : Int), (0 : Int), 0)
 
-/-- copy of the body regenerated from x509/x509.go func ParseCertificates: body of the loop over `len(asn1Data) > 0` (as of the deepening round) -/
+/-- copy of the body regenerated from x509/x509.go func ParseCertificates: one iteration of the loop that calls asn1.Unmarshal, executed on every combination of the facts it observes (error 9 = next iteration; third component = the collector's count afterwards) -/
 def parseCertificatesSplitStep (strictFails laxFails : Bool) (nfe_ : Nat) : Int × Int × Nat :=
   if strictFails then
     if laxFails then
       ((0 : Int), (1 : Int), nfe_)
     else
-    let nfe_ := nfe_ + 1
-    ((0 : Int), (9 : Int), nfe_)
+    ((0 : Int), (9 : Int), nfe_ + 1)
   else
   ((0 : Int), (9 : Int), nfe_)
 
-/-- copy of the body regenerated from x509/x509.go func ParseCertificates: body of the loop over `v` (as of the deepening round) -/
+/-- copy of the body regenerated from x509/x509.go func ParseCertificates: one iteration of the loop that calls parseCertificate, executed on every combination of the facts it observes (error 9 = next iteration; third component = the collector's count afterwards) -/
 def parseCertificatesInnerStep (innerFails innerIsNfe : Bool) (innerN nfe_ : Nat) : Int × Int × Nat :=
   if innerFails then
-    if (!innerIsNfe) then
-      ((0 : Int), (2 : Int), nfe_)
+    if innerIsNfe then
+      ((0 : Int), (9 : Int), nfe_ + innerN)
     else
-    let nfe_ := nfe_ + innerN
-    ((0 : Int), (9 : Int), nfe_)
+    ((0 : Int), (2 : Int), nfe_)
   else
   ((0 : Int), (9 : Int), nfe_)
 
-/-- copy of the body regenerated from asn1/asn1.go func checkInteger (whole body; 0 = nil, 1 = SyntaxError, 2 = StructuralError, 3 = another fresh error, 4 = the failing callee's error) (as of the deepening round) -/
+/-- copy of the body regenerated from asn1/asn1.go func checkInteger (whole body; 0 = nil, 1 = SyntaxError, 2 = StructuralError, 3 = another fresh error, 4 = the failing callee's error) -/
 def checkIntegerBody (len : Int) (lax_ : Bool) (b0 b1 : Int) : Nat :=
   if (decide (len = (0 : Int))) then
     (2 : Nat)
@@ -154,7 +129,7 @@ def checkIntegerBody (len : Int) (lax_ : Bool) (b0 b1 : Int) : Nat :=
   else
   (0 : Nat)
 
-/-- copy of the body regenerated from asn1/asn1.go func parseInt64 (whole body; 0 = nil, 1 = SyntaxError, 2 = StructuralError, 3 = another fresh error, 4 = the failing callee's error) (as of the deepening round) -/
+/-- copy of the body regenerated from asn1/asn1.go func parseInt64 (whole body; 0 = nil, 1 = SyntaxError, 2 = StructuralError, 3 = another fresh error, 4 = the failing callee's error) -/
 def parseInt64Body (checkFails : Bool) (len : Int) : Nat :=
   if checkFails then
     (4 : Nat)
@@ -164,7 +139,7 @@ def parseInt64Body (checkFails : Bool) (len : Int) : Nat :=
   else
   (0 : Nat)
 
-/-- copy of the body regenerated from asn1/asn1.go func parseInt32 (whole body; 0 = nil, 1 = SyntaxError, 2 = StructuralError, 3 = another fresh error, 4 = the failing callee's error) (as of the deepening round) -/
+/-- copy of the body regenerated from asn1/asn1.go func parseInt32 (whole body; 0 = nil, 1 = SyntaxError, 2 = StructuralError, 3 = another fresh error, 4 = the failing callee's error) -/
 def parseInt32Body (checkFails int64Fails outOfRange : Bool) : Nat :=
   if checkFails then
     (4 : Nat)
@@ -177,7 +152,7 @@ def parseInt32Body (checkFails int64Fails outOfRange : Bool) : Nat :=
   else
   (0 : Nat)
 
-/-- copy of the body regenerated from asn1/asn1.go func parseBitString (whole body; 0 = nil, 1 = SyntaxError, 2 = StructuralError, 3 = another fresh error, 4 = the failing callee's error) (as of the deepening round) -/
+/-- copy of the body regenerated from asn1/asn1.go func parseBitString (whole body; 0 = nil, 1 = SyntaxError, 2 = StructuralError, 3 = another fresh error, 4 = the failing callee's error) -/
 def parseBitStringBody (len : Int) (b0 : Int) (lastLowBitsSet : Bool) : Nat :=
   if (decide (len = (0 : Int))) then
     (1 : Nat)
@@ -188,7 +163,7 @@ def parseBitStringBody (len : Int) (b0 : Int) (lastLowBitsSet : Bool) : Nat :=
   else
   (0 : Nat)
 
-/-- copy of the body regenerated from asn1/asn1.go func parseBase128Int: one iteration of the loop `shifted` (as of the deepening round) -/
+/-- copy of the body regenerated from asn1/asn1.go func parseBase128Int: one iteration of the loop `shifted` -/
 def parseBase128IntStep (shifted_ offset_ : Int) (byte : Int) (tooBig : Bool) : Nat :=
   if (decide (shifted_ = (5 : Int))) then
     (2 : Nat)
@@ -206,7 +181,7 @@ def parseBase128IntStep (shifted_ offset_ : Int) (byte : Int) (tooBig : Bool) : 
   else
   (9 : Nat)
 
-/-- copy of the body regenerated from asn1/asn1.go func parseTagAndLength (whole body; 0 = nil, 1 = SyntaxError, 2 = StructuralError, 3 = another fresh error, 4 = the failing callee's error) (as of the deepening round) -/
+/-- copy of the body regenerated from asn1/asn1.go func parseTagAndLength (whole body; 0 = nil, 1 = SyntaxError, 2 = StructuralError, 3 = another fresh error, 4 = the failing callee's error) -/
 def parseTagAndLengthBody (len : Int) (byteAt : Int → Int) (initOffset_ : Int) (b128Fails : Bool) (b128Tag b128Off : Int) (loopFails : Bool) (loopLen : Int) : Nat :=
   let offset_ := initOffset_
   if (decide (offset_ ≥ len)) then
@@ -269,7 +244,7 @@ def parseTagAndLengthBody (len : Int) (byteAt : Int → Int) (initOffset_ : Int)
   else
   (0 : Nat)
 
-/-- copy of the body regenerated from asn1/asn1.go func parseTagAndLength: one iteration of the loop `i < numBytes` (as of the deepening round) -/
+/-- copy of the body regenerated from asn1/asn1.go func parseTagAndLength: one iteration of the loop `i < numBytes` -/
 def parseLengthStep (len offset_ length_ : Int) (byteAt : Int → Int) : Nat × Bool × Int × Int :=
   if (decide (offset_ ≥ len)) then
     ((1 : Nat), true, offset_, length_)
@@ -285,7 +260,7 @@ def parseLengthStep (len offset_ length_ : Int) (byteAt : Int → Int) : Nat × 
   else
   ((9 : Nat), false, offset_, length_)
 
-/-- copy of the body regenerated from asn1/asn1.go func parseObjectIdentifier (whole body; 0 = nil, 1 = SyntaxError, 2 = StructuralError, 3 = another fresh error, 4 = the failing callee's error) (as of the deepening round) -/
+/-- copy of the body regenerated from asn1/asn1.go func parseObjectIdentifier (whole body; 0 = nil, 1 = SyntaxError, 2 = StructuralError, 3 = another fresh error, 4 = the failing callee's error) -/
 def parseObjectIdentifierBody (len : Int) (lax_ firstFails loopFails : Bool) : Nat :=
   if (decide (len = (0 : Int))) then
     if lax_ then
@@ -301,13 +276,10 @@ def parseObjectIdentifierBody (len : Int) (lax_ firstFails loopFails : Bool) : N
   else
   (0 : Nat)
 
-/-- copy of the body regenerated from asn1/asn1.go func parseBigInt (whole body; 0 = nil, 1 = SyntaxError, 2 = StructuralError, 3 = another fresh error, 4 = the failing callee's error) (as of the deepening round) -/
+/-- copy of the body regenerated from asn1/asn1.go func parseBigInt (whole body; 0 = nil, 1 = SyntaxError, 2 = StructuralError, 3 = another fresh error, 4 = the failing callee's error) -/
 def parseBigIntBody (checkFails : Bool) (len b0 : Int) : Nat :=
   if checkFails then
     (4 : Nat)
-  else
-  if ((decide (len > (0 : Int))) && (decide ((I64.land b0 (0x80 : Int)) = (0x80 : Int)))) then
-    (0 : Nat)
   else
   (0 : Nat)
 
